@@ -126,6 +126,33 @@ macro_rules! gf_common {
 
             harness! {
                 #[kani::unwind($unw)]
+                fn q08_from_byte_slice_is_canonical() {
+                    // TryFrom<&[u8]>: whatever lengths are accepted, the element built is canonical
+                    // (zero padding) and is the little-endian value of the bytes, zero-extended
+                    let raw: [u8; BYTES + 1] = kani::any();
+                    let len: usize = kani::any();
+                    kani::assume(len <= BYTES + 1);
+                    match <$f as TryFrom<&[u8]>>::try_from(&raw[..len]) {
+                        Ok(x) => {
+                            assert!(len <= BYTES, "a slice longer than the element is refused");
+                            let v = rd(x);
+                            assert!(v <= MASK, "the element built from a slice has zero padding");
+                            let i: usize = kani::any();
+                            kani::assume(i < BYTES);
+                            let expect = if i < len { raw[i] } else { 0 };
+                            assert!(((v >> (8 * i)) & 0xFF) as u8 == expect, "bytes are taken little endian, the rest is zero");
+                            kani::cover!(true);
+                        }
+                        Err(e) => {
+                            std::mem::forget(e);
+                            kani::cover!(true);
+                        }
+                    }
+                }
+            }
+
+            harness! {
+                #[kani::unwind($unw)]
                 fn $trunc() {
                     let v: u128 = kani::any();
                     assert!(rd(<$f as U128Conversions>::truncate_from(v)) == v & MASK);
